@@ -515,6 +515,30 @@ var regionOnlyFaults = []simkit.Fate{
 	simkit.RERegionNotFound, simkit.TopoSplit, simkit.TopoLeader, simkit.TopoSplitAfter, simkit.Delay,
 }
 
+// rareFaults: answers a store gives rarely - refusals that the sender retries after a back-off or a reload (none has an
+// effect on the store), one that it must NOT take for a refusal (exec-undetermined), and two definite refusals.
+var rareFaults = []simkit.Fate{
+	simkit.REMaxTSNotSynced, simkit.REDiskFull, simkit.RERecoveryInProgress, simkit.REIsWitness, simkit.RERegionNotInitialized,
+	simkit.REKeyNotInRegion, simkit.REMismatchPeerID, simkit.REReadIndexNotReady, simkit.REProposalInMerging, simkit.REServerIsBusyHint,
+	simkit.REStoreNotMatch, simkit.ExecUndetermined, simkit.ExecUndetermined, simkit.REFlashbackInProgress, simkit.RERaftTooLarge,
+}
+
+// addRareFaults (own random stream): a third of the runs with random faults also draw from the rare answers.
+func addRareFaults(seed uint64, sc *Scenario) {
+	if !sc.Net.Random || len(sc.Net.OnlyTypes) > 0 {
+		return
+	}
+	r := simkit.Rand(seed, "rare-faults")
+	if r.Intn(3) != 0 {
+		return
+	}
+	for _, f := range rareFaults {
+		if r.Intn(4) == 0 {
+			sc.Net.Kinds = append(sc.Net.Kinds, f)
+		}
+	}
+}
+
 // genWorkload generates the C01-style mixed workload.
 func genWorkload(cfg simkit.RunConfig, o genOpts) *Scenario {
 	r := simkit.Rand(cfg.Seed, "gen")
